@@ -46,7 +46,7 @@ def run(ctx):
     from ahbicht.expressions.condition_expression_parser import parse_condition_expression_to_tree as parse_cond
     from ahbicht.expressions.expression_resolver import parse_expression_including_unresolved_subexpressions as resolve
 
-    built = prepare(ctx, ["Gen_grammar", "Gen_ahbgrammar"], ["Props/C02.vo", "Corr/Parse.vo"])
+    built = prepare(ctx, ["Gen_grammar", "Gen_ahbgrammar"], ["Props/C02.vo", "Corr/Parse.vo", "Corr/Ahb.vo"])
     evalimpl.set_cer()
     cond = streams(ctx)
     # --- condition parser: correspondence + oracle (accepted iff the independent parser accepts its tokens)
@@ -91,6 +91,11 @@ def run(ctx):
             "Muss[1] ", "Muss [1]\x0bSoll[2]", "Muss[1]Soll", "Muss[1]X", "X", "x", "XX", "Muss[1P]", "Muss[UB1]", "Muss[1P0..1]", "Muss [1] Soll [2] Kann"]
     ahb += pool[:: max(1, len(pool) // (300 if ctx.quick else 3000))]
     n_ahb = 0
+    ahb_terms, res_terms = [], []
+    AIMPORTS = "From Ahb Require Import Model.Prelude Model.Grammar Gen.Gen_grammar Gen.Gen_ahbgrammar Model.Lex Model.EvalAhb Model.Ahb Corr.Parse Corr.Ahb."
+    for s in ahb:
+        ahb_terms.append(f"({gtext(s)}, {ahb_obs(classify(lambda: parse_ahb(s)))})")
+        res_terms.append(f"({gtext(s)}, {resolve_obs(classify(lambda: asyncio.run(resolve(s, resolve_packages=False, replace_time_conditions=False))))})")
     for s in ahb:
         n_ahb += 1
         for name, fn in (("parse_ahb_expression_to_single_requirement_indicator_expressions", lambda: parse_ahb(s)),
@@ -106,6 +111,14 @@ def run(ctx):
             if not (rv[0] == "ok" and rv[1][0] is False and isinstance(rv[1][1], str)):
                 ctx.fail(f"is_valid|{s}", {"entry": "is_valid_expression", "string": s}, "(False, message)", str(rv)[:120], "oracle: the validity check reports malformed input as (False, message)")
     ctx.add_eval(2 * n_ahb)
+    for tag, ctype, chk, terms in (("C02_ahb", "ahbparse_case", "ahbparse_check", ahb_terms), ("C02_res", "resolvestr_case", "resolvestr_check", res_terms)):
+        n2, bad2, err2 = runner.run_case_files(tag, AIMPORTS, ctype, chk, terms, shard=300)
+        if err2:
+            ctx.broke(f"correspondence ({ctype}) could not be evaluated in Coq", err2)
+        for i in bad2[:10]:
+            ctx.broke(f"correspondence mismatch ({ctype}): model and ahbicht differ", f"{ahb[i]!r} -> {terms[i][-300:]}")
+        ctx.notes["correspondence"][ctype] = {"cases": n2, "mismatches": len(bad2)}
+        ctx.add_eval(n2)
     ctx.coverage["distinct_nontrivial"] = n_nontrivial
     ctx.coverage["rule"] = ("three streams: token sequences up to length 4/5 (exhaustive) and random well-formed expressions; nearly well-formed (one character deleted / "
                             "duplicated / swapped / inserted) plus a fixed malformed corpus (empty brackets, unbalanced, odd white space, non-ASCII digits, ...); garbage over a "
@@ -114,7 +127,52 @@ def run(ctx):
     ctx.notes["bounds"] = "strings are shorter than 64 tokens / bracket depth 40; CPython recursion depth and memory are outside the model"
     ctx.sample({"string": cond[500][0]})
     ctx.sample({"ahb_string": ahb[3]})
-    return finish(ctx, assumptions=["the AHB-expression scanner and the resolver are checked by the oracle (outcome classes) until their Coq model (L4/L5) is tied in; see DESIGN.md section 12"])
+    return finish(ctx, assumptions=["Lark's dynamic Earley lexer on the AHB grammar is modelled by the deterministic scanner of Model/Ahb.v (longest regex match per expected terminal), validated by this correspondence",
+                                    "character classes / case-insensitive letter sets / \\w of the three AHB terminals are computed by the translator with Python's re on every code point"])
+
+
+def ahb_obs(res):
+    """Lark tree of the AHB grammar -> Gallina (list rawpart)"""
+    from lark import Token, Tree
+
+    tag, v = res
+    if tag == "exn":
+        return f"(Exn {v})"
+    if not isinstance(v, Tree) or v.data != "ahb_expression":
+        return "(Exn OtherErr)"
+    parts = []
+    for ch in v.children:
+        toks = ch.children
+        kind = "TokMM" if toks[0].type == "MODAL_MARK" else "TokPO"
+        if ch.data == "single_requirement_indicator_expression" and len(toks) == 2 and all(isinstance(t, Token) for t in toks):
+            parts.append(f"RP ({kind} {gtext(str(toks[0]))}) (Some {gtext(str(toks[1]))})")
+        elif ch.data == "requirement_indicator" and len(toks) == 1:
+            parts.append(f"RP ({kind} {gtext(str(toks[0]))}) None")
+        else:
+            return "(Exn OtherErr)"
+    return "(Ok [" + "; ".join(parts) + "])"
+
+
+def resolve_obs(res):
+    from lark import Token, Tree
+
+    tag, v = res
+    if tag == "exn":
+        return f"(Exn {v})"
+    try:
+        if isinstance(v, Tree) and v.data == "ahb_expression":
+            parts = []
+            for ch in v.children:
+                toks = ch.children
+                kind = "TokMM" if toks[0].type == "MODAL_MARK" else "TokPO"
+                if len(toks) == 2:
+                    parts.append(f"({kind} {gtext(str(toks[0]))}, Some {strings.lark_to_gallina(toks[1])})")
+                else:
+                    parts.append(f"({kind} {gtext(str(toks[0]))}, None)")
+            return "(Ok (OAhb [" + "; ".join(parts) + "]))"
+        return f"(Ok (OCond {strings.lark_to_gallina(v)}))"
+    except (ValueError, AttributeError, IndexError):
+        return "(Exn OtherErr)"
 
 
 def replay(path):
